@@ -44,7 +44,13 @@ fn main() {
         "c10" => c10::run(&args),
         "c11" => c11::run(&args),
         "c12" => c12::run(&args),
-        "c13" => c13::run(&args),
+        "c13" => {
+            if args.get("leg") == Some("server") {
+                c13::run_server(&args)
+            } else {
+                c13::run(&args)
+            }
+        }
         "c13-one" => {
             c13::run_one(&args);
             return;
